@@ -37,7 +37,7 @@ impl<'a> Session<'a> {
         Session { env: None, fs: 0.0, out, stats: Stats::new(), alive: false, cells: HashSet::new() }
     }
     fn panic_event(&mut self, during: &str, msg: &str) {
-        self.out.line(&format!("{{\"op\":\"panic\",\"during\":{},\"msg\":{}}}", jstr(during), jstr(msg)));
+        self.out.line(&format!("{{\"op\":\"panic\",\"where\":\"adsr\",\"during\":{},\"msg\":{}}}", jstr(during), jstr(msg)));
         self.stats.add("panics", 1);
         self.alive = false;
         self.env = None;
@@ -124,7 +124,7 @@ impl<'a> Session<'a> {
             Ok(t) => t,
             Err(m) => return self.panic_event("TimePeriod::from", &m),
         };
-        let (fl, fr) = match ratio_fix16(&[], &[t, self.fs], 24) {
+        let (fl, fr) = match if t.is_finite() && t > 0.0 { ratio_fix16(&[], &[t, self.fs], 24) } else { None } {
             Some(p) => p,
             None => (1 << 30, 0), // converted time is zero/garbage: no finite ideal step
         };
@@ -222,6 +222,7 @@ fn pick_time(rng: &mut Rng) -> f32 {
         2 => (rng.unit() * 0.002) as f32,         // below the lower clamp
         3 => (20.0 + rng.unit() * 50.0) as f32,   // above the upper clamp
         4 => -1.0,
+        5 => *rng.pick(&[f32::NAN, f32::INFINITY, f32::NEG_INFINITY, -0.0, 0.0]),
         _ => rng.log_uniform(0.0005, 40.0) as f32,
     }
 }
@@ -232,12 +233,16 @@ fn pick_sustain(rng: &mut Rng) -> f32 {
         1 => 1.0,
         2 => -0.3,
         3 => 1.7,
+        4 => *rng.pick(&[f32::NAN, f32::INFINITY, f32::NEG_INFINITY, -0.0]),
         _ => rng.unit() as f32,
     }
 }
 
 fn est_inc(t: f32, fs: f32) -> u64 {
     let tc: f32 = TimePeriod::from(t).into();
+    if !(tc.is_finite() && tc > 0.0) {
+        return 0;
+    }
     (16777216.0f64 / (tc as f64 * fs as f64)) as u64
 }
 
